@@ -128,3 +128,37 @@ func VerifSelf_Format(cs int) {
 	VsObserve(fmt.Sprint(ys))
 	VsReach("formats-observed")
 }
+
+// VerifSelf_Sort: sort.Slice (unstable: tie order of the library's pdqsort above 12 elements) and
+// sort.SliceStable on records with many equal keys, three of the keys symbolic. cs: 13 + 4*cs elements.
+func VerifSelf_Sort(cs int) {
+	type rec struct{ key, id int }
+	n := 13 + 4*cs
+	mk := func() []rec {
+		var out []rec
+		for i := 0; i < n; i++ {
+			out = append(out, rec{key: (i * 7) % 3, id: i})
+		}
+		return out
+	}
+	k0, k1, k2 := VsInt("k0", 0, 2), VsInt("k1", 0, 2), VsInt("k2", 0, 2)
+	set := func(rs []rec) {
+		rs[1].key, rs[n/2].key, rs[n-2].key = k0, k1, k2
+	}
+	ids := func(rs []rec) string {
+		s := ""
+		for _, r := range rs {
+			s += fmt.Sprint(r.id) + ","
+		}
+		return s
+	}
+	a := mk()
+	set(a)
+	sort.Slice(a, func(i, j int) bool { return a[i].key < a[j].key })
+	VsObserve(ids(a))
+	b := mk()
+	set(b)
+	sort.SliceStable(b, func(i, j int) bool { return b[i].key > b[j].key })
+	VsObserve(ids(b))
+	VsReach("sorted")
+}
